@@ -4,8 +4,7 @@
 (* C11): a catalogue of construct templates x every inter-token slot x      *)
 (* comment kind.  A case is built as a behaviour                             *)
 (*    Init (pick a template) -> AddComment (slot, kind) [-> AddComment]      *)
-(* with at most MaxComments comments; every state with >= 1 comment is       *)
-(* printed as a case.                                                        *)
+(* with at most MaxComments comments; every state is printed as a case.      *)
 (***************************************************************************)
 EXTENDS LuaSyntax, TLC, Json
 
@@ -40,7 +39,7 @@ Catalogue == {
   T("call_semi_paren", "Lua51", "call", <<Semi(Local(<<"x">>, <<A>>)), CallStmt(Chain(<<Par(B), CallArgs(<<>>)>>))>>),
   T("return0", "Lua51", "stmt", <<Return(<<>>)>>),
   T("return2", "Lua51", "stmt", <<Return(<<A, B>>)>>),
-  T("return_bin", "Lua51", "expr", <<Return(<<Bin("and", A, Bin("or", B, Cn))>>)>>),
+  T("return_bin", "Lua51", "expr", <<Return(<<Bin("or", Bin("and", A, B), Cn)>>)>>),
   T("if1", "Lua51", "block", <<If(A, Body1)>>),
   T("if_ret", "Lua51", "block", <<N("function", "g", FuncBody(<<>>, Block(<<If(Un("not", A), Block(<<Return(<<>>)>>))>>)))>>),
   T("if_else", "Lua51", "block", <<N("if", "else", <<A, Body1, B, EmptyBlock, EmptyBlock>>)>>),
@@ -54,6 +53,9 @@ Catalogue == {
   T("function", "Lua51", "func", <<FunctionDecl("g", <<"p", "q">>, RetBody)>>),
   T("function0", "Lua51", "func", <<FunctionDecl("g", <<>>, EmptyBlock)>>),
   T("localfunction", "Lua51", "func", <<LocalFunction("g", <<"p">>, RetBody)>>),
+  \* a call followed by the block's last statement: not a "simple" block, must never be collapsed to one of the two
+  T("function_call_ret", "Lua51", "func", <<LocalFunction("g", <<"p">>, Block(<<CallStmt(CallF(<<Name("p")>>)), Return(<<Name("p")>>)>>))>>),
+  T("if_call_ret", "Lua51", "block", <<N("function", "g", FuncBody(<<>>, Block(<<If(A, Block(<<CallStmt(CallF(<<>>)), Return(<<>>)>>))>>)))>>),
   T("anonfunc", "Lua51", "func", <<Local(<<"g">>, <<Func(<<"p">>, RetBody)>>)>>),
   T("table_pos", "Lua51", "table", <<Local(<<"t">>, <<Table(<<FPos(One), FPos(Two)>>)>>)>>),
   T("table_named", "Lua51", "table", <<Local(<<"t">>, <<Table(<<FName("k", One), FExpr(A, B)>>)>>)>>),
@@ -100,5 +102,6 @@ Case == [ tree |-> tmpl.tree,
           cfg |-> [syntax |-> tmpl.syntax],
           meta |-> [src |-> "Trivia", tmpl |-> tmpl.name, group |-> tmpl.group, ntok |-> NTok(tmpl.tree), comments |-> comments] ]
 
-Emit == comments # <<>> => PrintT(<<"CASE", ToJson(Case)>>)
+(* the bare templates are cases too (every option value and width is swept over them) *)
+Emit == PrintT(<<"CASE", ToJson(Case)>>)
 =============================================================================
